@@ -152,7 +152,7 @@ class ExprSim(core.Engine):
         except Exception:
             res.skipped = 'docgen_rejected'
             return res
-        st = {'doc': doc, 'free': free, 'known': res.known_hits}
+        st = {'doc': doc, 'free': free, 'known': res.known_hits, 'foreign': res.foreign}
         V: list[Violation] = []
         # parsed values agree with independent evaluation
         for t, e in zip(trace['free'], free):
@@ -181,6 +181,12 @@ class ExprSim(core.Engine):
             except KeyError:
                 stats['op_skipped_unresolvable'] += 1
                 V = []
+            except core.HarnessError:
+                raise
+            except Exception:
+                if not res.foreign:
+                    raise
+                break      # state already known to be corrupt
             res.relevant_ops += 1
             log.append({'n': step, 'op': op.get('o'), 'mode': op.get('mode'), 'doc': core.sha(print_model(doc))})
             step += 1
@@ -355,7 +361,10 @@ class ExprSim(core.Engine):
             return V
         tree = W.check_tree(result, step, standalone=not (mode == 'inplace' and left_attached), label='result')
         if tree:
-            return tree
+            # C05's clause, reported by C05's check (exprsim is in its plan); this run goes on, because a
+            # structurally wrong result may show up as a wrong value or text a few operator applications later
+            if not any(x.clause == tree[0].clause for x in st['foreign']):
+                st['foreign'].extend(tree[:1])
         # ---- operands -----------------------------------------------------------------
         if mode != 'inplace':
             for before, obj, fp, label in ((l_before, left, l_fp, 'left operand'), (r_before, r_obj, r_fp, 'right operand')):
